@@ -111,6 +111,17 @@ func (v Value) Go() any {
 
 func Str(s string) Value { return Value{K: "s", S: []byte(s)} }
 
+// EffUpdate: the Update option in force (options apply in order, the last one wins).
+func (c *ConfigSpec) EffUpdate() *bool {
+	if c == nil {
+		return nil
+	}
+	if c.Update2 != nil {
+		return c.Update2
+	}
+	return c.Update
+}
+
 // MatcherSpec describes one matcher of a MatchJSON / MatchYAML call.
 type MatcherSpec struct {
 	Kind      string `json:"kind"` // any, type, custom
@@ -153,6 +164,7 @@ type ConfigSpec struct {
 	Filename *string   `json:"filename,omitempty"`
 	Ext      *string   `json:"ext,omitempty"`
 	Update   *bool     `json:"update,omitempty"`
+	Update2  *bool     `json:"update2,omitempty"` // a second Update option, given after the first (the last one wins)
 	JSON     *JSONOpts `json:"json,omitempty"`
 	JSON2    *JSONOpts `json:"json2,omitempty"` // a second JSON option, given after the first
 }
